@@ -917,12 +917,15 @@ def run_impl(ctx, seqs, chunk):
 
 # ----------------------------------------------------------------------------------------------
 # shrinking (delta debugging over the operation list)
-def ddmin(ops, test_batch, fix=None, max_rounds=40, max_cands=600):
-    """test_batch(list of candidate op lists) -> list of bool (candidate still fails in the same way)."""
+def ddmin(ops, test_batch, fix=None, max_rounds=40, max_cands=600, budget_s=240):
+    """test_batch(list of candidate op lists) -> list of bool (candidate still fails in the same way).
+    Best effort within budget_s seconds of wall time (a candidate may hang the implementation until its timeout)."""
+    import time as _t
+    t_end = _t.time() + budget_s
     cur = list(ops)
     n = 2
     rounds = used = 0
-    while len(cur) >= 2 and rounds < max_rounds and used < max_cands:
+    while len(cur) >= 2 and rounds < max_rounds and used < max_cands and _t.time() < t_end:
         size = -(-len(cur) // n)
         cands, seen = [], set()
         for i in range(0, len(cur), size):
@@ -954,7 +957,7 @@ def shrink_oracle(ctx, ops, rule):
     fix = repair if respects_protocol(ops) else None
 
     def test(cands):
-        r, err = run_chunk(ctx, cands, timeout=300)
+        r, err = run_chunk(ctx, cands, timeout=90)
         if r is None or len(r.get("out", [])) != len(cands):
             return [False] * len(cands)
         res = []
@@ -972,7 +975,7 @@ def shrink_oracle(ctx, ops, rule):
 def shrink_crash(ctx, ops):
     def test(cands):
         with ThreadPoolExecutor(max_workers=C.NCPU) as ex:
-            res = list(ex.map(lambda c: run_chunk(ctx, [c], timeout=120), cands))
+            res = list(ex.map(lambda c: run_chunk(ctx, [c], timeout=60), cands))
         return [r is None for r, _ in res]
     try:
         return ddmin(ops, test, None, max_rounds=30, max_cands=150)
@@ -987,7 +990,7 @@ def shrink_mismatch(ctx, ops):
     counter = [0]
 
     def test(cands):
-        r, err = run_chunk(ctx, cands, timeout=300)
+        r, err = run_chunk(ctx, cands, timeout=90)
         if r is None or len(r.get("out", [])) != len(cands):
             return [False] * len(cands)
         terms = [analyse(c, o, m)["term"] for c, o, m in zip(cands, r["out"], r["meta"])]
